@@ -456,6 +456,8 @@ def r4(rr, repo):
             idx = [i for i, (k, v) in enumerate(pc) if k.startswith('truthy(self.mq.send(')][0]
             after = [s for s in stops if s[0] > idx]
             rr.ob('while waiting to send the stop event is polled', bool(after), mod, fn, witness=p.pc_text(), key='poll-send')
+            if after and after[0][1] is True:
+                rr.ob('a set stop event ends the send wait by exit() as well', bool(exits), mod, fn, witness=p.pc_text()[-200:], key='poll-send-exit')
         if p.outcome is None or p.outcome[0] == 'return':     # falling off the end and an early `return` both end the iteration normally
             n_end += 1
             dl = [v for k, v in pc if k == 'isnone(self.exit_after_t)']
@@ -476,6 +478,14 @@ def r4(rr, repo):
             else:
                 rr.violated('exit_after is set but never compared with the clock', mod, fn, witness=p.pc_text(), key='deadline-nocmp')
     rr.floor('paths waiting for input', n_wait_r, 1, mod, fn)
+    # the main loop of run(): iterations go on exactly while the stop event is not set
+    _, run = repo.find(f'{FILTER}::Filter.run')
+    mains = [w for w in ast.walk(run) if isinstance(w, ast.While) and any(isinstance(c, ast.Call) and U(c.func).endswith('.loop_once') for c in ast.walk(w))]
+    rr.floor('main loops in Filter.run', len(mains), 1, mod, run)
+    for w in mains:
+        t = w.test
+        ok = isinstance(t, ast.UnaryOp) and isinstance(t.op, ast.Not) and isinstance(t.operand, ast.Call) and U(t.operand.func).endswith('stop_evt.is_set') and not w.orelse
+        rr.ob('run() keeps calling loop_once while - and only while - the stop event is not set', ok, mod, w, witness=U(t)[:80], key='main-loop-condition')
     rr.floor('paths waiting to send', n_wait_s, 1, mod, fn)
     rr.floor('normal ends of loop_once', n_end, 1, mod, fn)
 
